@@ -46,7 +46,7 @@ C_COMPLEX = ["C_FLOAT_COMPLEX", "C_DOUBLE_COMPLEX", "C_LONG_DOUBLE_COMPLEX"]
 PAIRS = ["FLOAT_INT", "LONG_INT", "DOUBLE_INT", "SHORT_INT", "2INT", "2FLOAT", "2DOUBLE", "LONG_DOUBLE_INT", "2LONG",
          "COMPLEX8", "COMPLEX16", "COMPLEX32"]
 INTS = C_INT + EXT_INT + F_INT + MULTI
-SKIP_FP = os.environ.get("C31_SKIP", "").split()  # datatypes whose value clause is left out (reported by the caller)
+SKIP = os.environ.get("C31_SKIP", "").split()  # datatypes whose value clause is left out (reported by the caller)
 
 # op -> (datatypes with a value clause, datatypes that must merely not be rejected (value not specified here))
 OPS = {
@@ -130,65 +130,103 @@ head1, head2 = open(os.path.join(wd, "spec_head.h")).read().split("/*@@GENERATED
 w(head1)
 
 known = sorted(declared - {"DATATYPE_NULL"})
-w("#define NKNOWN %d" % (len(known) + 1))
-w("static struct Datatype* const g_known[NKNOWN] = {%s, &g_other_dt};" % ", ".join("&smpi_MPI_" + k for k in known))
+
+
+def ctype_of(d):
+    return registry[d][0] if d in registry else "char"
+
+
+def tag(t):
+    return re.sub(r"\W+", "_", t.replace("struct ", "S_"))
+
+
+# one pair of typed buffers (+ the saved initial element) per C type: the harness points invec/inoutvec at the buffers
+# of the registered type of the datatype under test, so every access in contracts and invariants is a typed array access
+types = sorted({ctype_of(d) for d in known} | {"char"})
+for t in types:
+    w("%s g_old_%s;" % (t, tag(t)))
 w("#define IS_BASE(p) (%s || (p) == &g_other_dt)" % " || ".join("(p) == &smpi_MPI_%s" % k for k in known))
 sz = "sizeof(char)"
 for k in known:
-    if k in registry:
-        sz = "(p) == &smpi_MPI_%s ? sizeof(%s) : %s" % (k, registry[k][0], sz)
+    sz = "(p) == &smpi_MPI_%s ? sizeof(%s) : %s" % (k, ctype_of(k), sz)
 w("#define ELEM_SIZE(p) (%s)" % sz)
 w("#define BASES_NOT_DUP (%s && g_other_dt.duplicated_datatype_ == &smpi_MPI_DATATYPE_NULL)" %
   " && ".join("smpi_MPI_%s.duplicated_datatype_ == &smpi_MPI_DATATYPE_NULL" % k for k in known))
 w("#define INIT_BASES do { %s g_other_dt.duplicated_datatype_ = &smpi_MPI_DATATYPE_NULL; } while (0)" %
   " ".join("smpi_MPI_%s.duplicated_datatype_ = &smpi_MPI_DATATYPE_NULL;" % k for k in known))
 
+
+def case(dname, obj, dup):
+    t = ctype_of(dname) if dname else "char"
+    # heap buffers of NMAX elements of the registered type, arbitrary initial content
+    return ("{ g_a = malloc(sizeof(%s) * g_cap); g_b = malloc(sizeof(%s) * g_cap); __CPROVER_assume(g_a != NULL && g_b != NULL); "
+            "g_old_%s = ((%s*)g_b)[gk]; setup(%s, %d); stmt; }" % (t, t, tag(t), t, obj, dup))
+
+
+# one harness per (operator, datatype): with a constant datatype pointer the if-chain of the unit folds during symbolic
+# execution (one cbmc run with a symbolic datatype, or one run with all cases, did not finish in 5 minutes)
+w("#define PREPARE g_cap = nondet_size(); __CPROVER_assume(0 < g_cap && g_cap <= NMAX && gk < g_cap);")
+cases = [(k, case(k, "&smpi_MPI_" + k, 0)) for k in known] + [("dup_INT", case("INT", "&smpi_MPI_INT", 1)),
+                                                                 ("dup_2INT", case("2INT", "&smpi_MPI_2INT", 1)),
+                                                                 ("other", case(None, "&g_other_dt", 0))]
 w(head2)
+
+
+def views(d):
+    t = ctype_of(d)
+    return "((%s*)g_a)[gk]" % t, "g_old_%s" % tag(t), "((%s*)g_b)[gk]" % t
+
+
 harness = []
 for op, (valued, noabort) in OPS.items():
     f = op + "_func"
-    valued = [d for d in valued if d in registry]
+    valued = [d for d in valued if d in registry and d not in SKIP]
     w("\n/* ================= MPI_%s ================= */" % op.upper())
-    handled = valued + noabort
+    handled = [d for d in OPS[op][0] if d in registry] + noabort
     w("#define SUPPORTED_%s(p) (%s)" % (op, " || ".join("(p) == &smpi_MPI_%s" % d for d in handled)))
-    # loop invariants
     nloops = max([k for (fn, k) in loops if fn == f] + [0])
-    w("#define VF_LOOP_%s_0 VF_DUP_LOOP" % f)
     for k in range(1, nloops + 1):
         d, t, s = loops[(f, k)]
-        if d in noabort or d not in registry or d in SKIP_FP:
-            # no value clause: the loop still needs a frame and a variant to be closed
-            w("#define VF_LOOP_%s_%d __CPROVER_assigns(i%s, __CPROVER_object_whole(y%s)) "
-              "__CPROVER_loop_invariant(0 <= i%s && i%s <= *length) __CPROVER_decreases(*length - i%s)" %
-              (f, k, s, s, s, s, s))
-            continue
-        rt = registry[d][0]
         x, y, i = "x" + s, "y" + s, "i" + s
-        inv = ("0 <= %(i)s && %(i)s <= *length && g_base == &smpi_MPI_%(d)s && "
-               "(!(gk < (size_t)%(i)s) || %(post)s) && (!((size_t)%(i)s <= gk && gk < (size_t)g_n) || %(same)s)") % {
-            "i": i, "d": d, "post": post(op, rt, "((%s*)g_a)[gk]" % rt, "((%s*)g_b0)[gk]" % rt, "%s[gk]" % y),
-            "same": same(rt, "%s[gk]" % y, "((%s*)g_b0)[gk]" % rt)}
+        rt = ctype_of(d)
+        xa, old, yb = views(d)
+        untouched = "(!((size_t)%s <= gk) || %s)" % (i, same(rt, "%s[gk]" % y, old))
+        if d not in valued:
+            # no value clause for this datatype: the loop still needs frame, variant and "the rest is untouched"
+            inv = "0 <= %s && %s <= *length && g_base == &smpi_MPI_%s && %s" % (i, i, d, untouched)
+        else:
+            inv = "0 <= %s && %s <= *length && g_base == &smpi_MPI_%s && (!(gk < (size_t)%s) || %s) && %s" % (
+                i, i, d, i, post(op, rt, xa, old, "%s[gk]" % y), untouched)
         w("#define VF_LOOP_%s_%d __CPROVER_assigns(%s, __CPROVER_object_whole(%s)) __CPROVER_loop_invariant(%s) "
           "__CPROVER_decreases(*length - %s)" % (f, k, i, y, inv, i))
-    # contract
     w("void %s(void* a, void* b, int* length, struct Datatype** datatype)" % f)
     w("    __CPROVER_requires(OP_PRE)")
     w("    __CPROVER_assigns(vf_exc, __CPROVER_object_whole(b))")
     w("    __CPROVER_ensures(SUPPORTED_%s(g_base) ? vf_exc == 0 : vf_exc == VF_EXC_ABORT) /*@ %s_rejects_exactly_unsupported_datatypes */"
       % (op, op))
-    w("    __CPROVER_ensures(vf_exc == 0 || !(gb < g_nbytes) || ((char*)g_b)[gb] == ((char*)g_b0)[gb]) /*@ %s_rejected_leaves_buffer */"
-      % op)
+    for d in known:
+        xa, old, yb = views(d)
+        w("    __CPROVER_ensures(g_base != &smpi_MPI_%s || (vf_exc == 0 && gk < (size_t)g_n) || %s) /*@ %s_untouched_beyond_n_or_when_rejected_MPI_%s */"
+          % (d, same(ctype_of(d), yb, old), op, d))
     for d in valued:
-        if d in SKIP_FP:
-            continue
-        rt = registry[d][0]
+        xa, old, yb = views(d)
         w("    __CPROVER_ensures(g_base != &smpi_MPI_%s || !(gk < (size_t)g_n) || %s) /*@ %s_MPI_%s */" %
-          (d, post(op, rt, "((%s*)g_a)[gk]" % rt, "((%s*)g_b0)[gk]" % rt, "((%s*)g_b)[gk]" % rt), op, d))
+          (d, post(op, ctype_of(d), xa, old, yb), op, d))
     w("    ;")
-    harness.append("#ifdef H_%s\nvoid harness(void)\n{\n  setup();\n  %s(g_a, g_b, &g_len, &g_dtp);\n  VF_CANARY_POINT;\n}\n#endif"
-                   % (op, f))
+    for cn, body in cases:
+        harness.append("#ifdef H_%s_%s\nvoid harness(void)\n{\n  PREPARE\n  %s\n  VF_CANARY_POINT;\n}\n#endif"
+                       % (op, cn, body.replace("stmt;", "%s(g_a, g_b, &g_len, &g_dtp);" % f)))
 
 w("\n#include \"gen.c\"\n")
 w(open(os.path.join(wd, "spec_harness.h")).read())
+for fn, hn in (("replace_func", "replace"), ("no_func", "no_op")):
+    for cn, body in cases:
+        if cn in ("INT", "LONG_DOUBLE_INT", "dup_INT", "other"):
+            harness.append("#ifdef H_%s_%s\nvoid harness(void)\n{\n  PREPARE\n  %s\n  VF_CANARY_POINT;\n}\n#endif"
+                           % (hn, cn, body.replace("stmt;", "%s(g_a, g_b, &g_len, &g_dtp);" % fn)))
 w("\n".join(harness))
+if os.environ.get("C31_LIST"):
+    import json
+    json.dump({"cases": [c for c, _ in cases], "ops": {op: {"valued": [d for d in v if d in registry], "noabort": n}
+                                                        for op, (v, n) in OPS.items()}}, open(os.environ["C31_LIST"], "w"))
 open(os.path.join(wd, "spec.c"), "w").write("\n".join(out) + "\n")
